@@ -426,6 +426,23 @@ def exec_vrptw(case, o: Outcome):
     o.trace.append(["vrptw", summ(base), summ(main)])
     if base["seen"]["n"] >= 3:
         o.nontrivial = True
+    # the returned state is a live VRPState: a caller may go on applying the exported operators to it
+    if main["exc"] is None and main["res"] is not None and not o.violations:
+        import random as _r
+        orng = _r.Random(case.get("rng", {}).get("entropy", 0))
+        m = solvor_mod("vrp")
+        st = main["res"].solution
+        for step in range(3):
+            name = orng.choice(DESTROY + REPAIR)
+            try:
+                st = getattr(m, name)(st, seams.SimRandom(orng.getrandbits(30)))
+            except SOLVER_ERRORS as e:
+                o.violate(PROP, f"exception:{type(e).__name__}", f"{name} on the state returned by solve_vrptw: {e}", target=name)
+                break
+            bad = check_state(ref, st)
+            if bad:
+                o.violate(PROP, bad[0], f"{name} applied to the state returned by solve_vrptw: {bad[1]}", target=name, multi=True)
+                break
 
 
 # ------------------------------------------------------------------------------------------- job shop
